@@ -15,7 +15,16 @@ ENTRIES = ["to_svg", "pretty", "compressed", "settings", ("override", 100.0, 50.
 
 
 def gen_hostile(rng):
-    r = rng.below(8)
+    r = rng.below(10)
+    if r >= 8:
+        # a hostile token enclosed by a shape (the nesting stage looks at texts inside shapes)
+        tok = rng.choice(HOSTILE + ['{}', '{ }', '"" ""', '"{"', '{""}']).replace("\n", " ").replace("\r", " ")
+        if rng.chance(1, 2):
+            pad = " " * rng.below(3)
+            return gen.place(gen.box(len(tok) + 2 * len(pad) + rng.below(3), rng.range(1, 3),
+                                     corners=rng.choice(["++++", "..''", "┌┐└┘"]), inner=[pad + tok]), rng.below(4), rng.below(3))
+        return gen.place("( " + tok + " )", rng.below(4), rng.below(2)) if rng.chance(1, 2) else \
+            gen.place(" .---.\n( " + tok[:3].ljust(3) + " )\n `---'", rng.below(4), rng.below(2))
     if r == 0:
         return "".join(rng.choice(HOSTILE + list(gen.DRAW_ASCII)) for _ in range(rng.range(1, 30)))
     if r == 1:
